@@ -547,10 +547,17 @@ theorem appScope_cases (cs : List (Cav B)) :
       have : ¬ ((appsKept cs).contains 0 = true) := fun h => h0 (List.contains_iff_mem.mp h)
       rw [if_neg this]; exact ⟨rfl, trivial, h0⟩
 
-theorem clusterScope_cases (cs : List (Cav B)) :
-    (clusterScope cs = none ∧ (getCaveats isClusters cs).isEmpty = true) ∨
-    (clusterScope cs = some (clustersKept cs) ∧ (getCaveats isClusters cs).isEmpty = false) := by
-  unfold clusterScope
+/-- `flyio.ClusterScope` as it was before the repair of F11 (no wildcard case); kept for the
+negative example `preFix_clusterScope_left_out_may_clear` -/
+def clusterScopePreFix (cs : List (Cav B)) : Option (List Bytes) :=
+  let cavs := getCaveats isClusters cs
+  if cavs.isEmpty then none else
+  some ((sortDedup Bytes.lt (clusterKeys cavs)).filter fun id => clears cavs (clusterReq id) 0 0)
+
+theorem clusterScopePreFix_cases (cs : List (Cav B)) :
+    (clusterScopePreFix cs = none ∧ (getCaveats isClusters cs).isEmpty = true) ∨
+    (clusterScopePreFix cs = some (clustersKept cs) ∧ (getCaveats isClusters cs).isEmpty = false) := by
+  unfold clusterScopePreFix
   by_cases he : (getCaveats isClusters cs).isEmpty = true
   · left; simp [he]
   · simp only [Bool.not_eq_true] at he
@@ -655,16 +662,16 @@ theorem appScope_none_sound (cs : List (Cav B)) (h : appScope cs = none) :
     exact ⟨hl, fun id a ha hact => apps_permits_named rs id a ha hact (hp id)⟩
   · rw [hs] at h; cases h
 
-/-! ### soundness of `ClusterScope` (partial: the wildcard is not recognised, F11) -/
+/-! ### what held of `ClusterScope` before the repair of F11 (the wildcard was not recognised) -/
 
-theorem clusterScope_some_sound (cs : List (Cav B)) (L : List Bytes) (h : clusterScope cs = some L) :
+theorem clusterScopePreFix_some_sound (cs : List (Cav B)) (L : List Bytes) (h : clusterScopePreFix cs = some L) :
     (([] : Bytes) ∉ L → ∀ id, id ∉ L → ∀ a : Access, a.cluster = some (some id) → validate cs [a] ≠ []) ∧
     (∀ id ∈ L, ∀ rs, ClustersIn cs rs → ∀ a : Access, a.cluster = some (some id) → a.action = some 0 →
         prohibits (.clusters rs : Cav B) a = []) ∧
     (([] : Bytes) ∈ L → (∀ id ∈ L, id = []) ∧ ∀ rs, ClustersIn cs rs → (∃ m, rs = [(([] : Bytes), m)]) ∧
         ∀ id, ∀ a : Access, a.cluster = some (some id) → a.action = some 0 →
           prohibits (.clusters rs : Cav B) a = []) := by
-  rcases clusterScope_cases cs with ⟨hn, _⟩ | ⟨hs, hne⟩
+  rcases clusterScopePreFix_cases cs with ⟨hn, _⟩ | ⟨hs, hne⟩
   · rw [hn] at h; cases h
   · rw [hs] at h; injection h with h; subst h
     refine ⟨?_, ?_, ?_⟩
@@ -690,10 +697,10 @@ theorem clusterScope_some_sound (cs : List (Cav B)) (L : List Bytes) (h : cluste
         obtain ⟨hl, hp⟩ := hfam rs hrs
         exact ⟨hl, fun id a ha hact => clusters_permits_named rs id a ha hact (hp id)⟩
 
-theorem clusterScope_none_sound (cs : List (Cav B)) (h : clusterScope cs = none) :
+theorem clusterScopePreFix_none_sound (cs : List (Cav B)) (h : clusterScopePreFix cs = none) :
     ∀ c, Nested c cs → isClusters c = false := by
   intro c hn
-  rcases clusterScope_cases cs with ⟨_, he⟩ | ⟨hs, _⟩
+  rcases clusterScopePreFix_cases cs with ⟨_, he⟩ | ⟨hs, _⟩
   · cases hp : isClusters c with
     | false => rfl
     | true =>
@@ -950,24 +957,14 @@ theorem expiration_le_window (cs : List (Cav B)) (nb na : Int64)
     simp only [GoTime.after, Bool.or_eq_true, decide_eq_true_eq, Bool.and_eq_true, beq_iff_eq] at hb
     omega
 
-/-! ### the repair proposed for F11 (not the code as it is: kept here so that the model can follow
-the repair by moving this definition to `Flyio/Scopes.lean`)
+/-! ### soundness of `ClusterScope` (as repaired for F11: `AppScope`'s wildcard case mirrored) -/
 
-`ClusterScope` with `AppScope`'s wildcard case mirrored:
-`if possibleIDs[""] { return nil }` after the `maps.DeleteFunc`. -/
-
-def clusterScopeRepaired (cs : List (Cav B)) : Option (List Bytes) :=
-  let cavs := getCaveats isClusters cs
-  if cavs.isEmpty then none else
-  let possible := (sortDedup Bytes.lt (clusterKeys cavs)).filter fun id => clears cavs (clusterReq id) 0 0
-  if possible.contains [] then none else some possible
-
-theorem clusterScopeRepaired_cases (cs : List (Cav B)) :
-    (clusterScopeRepaired cs = none ∧ (getCaveats isClusters cs).isEmpty = true) ∨
-    (clusterScopeRepaired cs = none ∧ (getCaveats isClusters cs).isEmpty = false ∧ ([] : Bytes) ∈ clustersKept cs) ∨
-    (clusterScopeRepaired cs = some (clustersKept cs) ∧ (getCaveats isClusters cs).isEmpty = false ∧
+theorem clusterScope_cases (cs : List (Cav B)) :
+    (clusterScope cs = none ∧ (getCaveats isClusters cs).isEmpty = true) ∨
+    (clusterScope cs = none ∧ (getCaveats isClusters cs).isEmpty = false ∧ ([] : Bytes) ∈ clustersKept cs) ∨
+    (clusterScope cs = some (clustersKept cs) ∧ (getCaveats isClusters cs).isEmpty = false ∧
       ([] : Bytes) ∉ clustersKept cs) := by
-  have hdef : clusterScopeRepaired cs = if (getCaveats isClusters cs).isEmpty then none
+  have hdef : clusterScope cs = if (getCaveats isClusters cs).isEmpty then none
       else if (clustersKept cs).contains [] then none else some (clustersKept cs) := rfl
   rw [hdef]
   by_cases he : (getCaveats isClusters cs).isEmpty = true
@@ -984,18 +981,18 @@ theorem clusterScopeRepaired_cases (cs : List (Cav B)) :
       rw [if_neg this]; exact ⟨rfl, trivial, h0⟩
 
 /-- with the repair the full clause holds, exactly as for `AppScope` -/
-theorem clusterScopeRepaired_sound (cs : List (Cav B)) :
-    (∀ L, clusterScopeRepaired cs = some L →
+theorem clusterScope_sound (cs : List (Cav B)) :
+    (∀ L, clusterScope cs = some L →
       (∀ id, id ∉ L → ∀ a : Access, a.cluster = some (some id) → validate cs [a] ≠ []) ∧
       (∀ id ∈ L, ∀ rs, ClustersIn cs rs → ∀ a : Access, a.cluster = some (some id) → a.action = some 0 →
           prohibits (.clusters rs : Cav B) a = [])) ∧
-    (clusterScopeRepaired cs = none →
+    (clusterScope cs = none →
       ∀ rs, ClustersIn cs rs → (∃ m, rs = [(([] : Bytes), m)]) ∧
         ∀ id, ∀ a : Access, a.cluster = some (some id) → a.action = some 0 →
           prohibits (.clusters rs : Cav B) a = []) := by
   constructor
   · intro L h
-    rcases clusterScopeRepaired_cases cs with ⟨hn, _⟩ | ⟨hn, _⟩ | ⟨hs, hne, h0⟩
+    rcases clusterScope_cases cs with ⟨hn, _⟩ | ⟨hn, _⟩ | ⟨hs, hne, h0⟩
     · rw [hn] at h; cases h
     · rw [hn] at h; cases h
     · rw [hs] at h; injection h with h; subst h
@@ -1010,7 +1007,7 @@ theorem clusterScopeRepaired_sound (cs : List (Cav B)) :
       · intro id hid rs hrs a ha hact
         exact clusters_permits_named rs id a ha hact (((mem_clustersKept cs id).mp hid).2 rs hrs)
   · intro h rs hrs
-    rcases clusterScopeRepaired_cases cs with ⟨_, he⟩ | ⟨_, _, h0⟩ | ⟨hs, _, _⟩
+    rcases clusterScope_cases cs with ⟨_, he⟩ | ⟨_, _, h0⟩ | ⟨hs, _, _⟩
     · have : Cav.clusters rs ∈ getCaveats isClusters cs := (mem_clusters_found cs rs).mpr hrs
       rw [List.isEmpty_iff.mp he] at this; cases this
     · obtain ⟨hl, hp⟩ := family_wildcard_kept zeroStr (ClustersIn cs) [] rfl (fun k hk => (zeroStr_iff k).mp hk)
